@@ -641,6 +641,10 @@ static void iauth_xquery_services_changed(struct conf_node_base *node)
     struct set_node *jj;
     unsigned int ii;
 
+    /* A service entry edited in place reports itself; rescan the section. */
+    if (node->parent == conf.root)
+        node = &conf.root->base;
+
     if (node == &conf.root->base) {
         /* Mark all services as unconfigured. */
         for (ii = 0; ii < iauth_xquery_services.used; ++ii) {
@@ -655,7 +659,9 @@ static void iauth_xquery_services_changed(struct conf_node_base *node)
 
             if (base->type == CONF_STRING) {
                 struct conf_node_string *str = set_node_data(jj);
-                iauth_xquery_config_service(str->base.name, str->value);
+                base->hook = iauth_xquery_services_changed;
+                if (str->value) /* NULL while the entry is being removed */
+                    iauth_xquery_config_service(str->base.name, str->value);
             } /* else unknown type */
         }
 
